@@ -155,3 +155,113 @@ func lk13BackendState(p *core.Prog, rep *core.Report) {
 		}
 	}
 }
+
+// rm1RemovalTargets: everything the library deletes inside the data directory is named by construction - a data-file
+// id plus a suffix through the file-name constructor, or a whole sibling directory - never by what a directory listing
+// happened to return. A removal loop driven by os.ReadDir / Walk entries also meets the files the engine does not own
+// by id: above all the directory lock file (".lock" parses as id 0 when the parse error is ignored), whose unlinking
+// lets a second Open lock a fresh inode while the first database is still open.
+func rm1RemovalTargets(p *core.Prog, rep *core.Report) {
+	rep.Rule("RM1", "removal targets are constructed, not listed: the path argument of every os.Remove / os.RemoveAll in the library does not derive (through string concatenation, filepath.Join, conversions, phis) from a directory-entry name (os.DirEntry.Name / fs.FileInfo.Name results, or the path parameter of a filepath.Walk callback)")
+	var listed func(v ssa.Value, d int, seen map[ssa.Value]bool) string
+	listed = func(v ssa.Value, d int, seen map[ssa.Value]bool) string {
+		if v == nil || d > 12 || seen[v] {
+			return ""
+		}
+		seen[v] = true
+		switch t := v.(type) {
+		case *ssa.Call:
+			c := t.Common()
+			if c.IsInvoke() && c.Method.Name() == "Name" {
+				if n, ok := types.Unalias(c.Value.Type()).(*types.Named); ok && n.Obj().Pkg() != nil && (n.Obj().Pkg().Path() == "io/fs" || n.Obj().Pkg().Path() == "os") {
+					return "the name of a directory entry (" + n.Obj().Name() + ".Name)"
+				}
+			}
+			for _, a := range c.Args {
+				if s := listed(a, d+1, seen); s != "" {
+					return s
+				}
+			}
+		case *ssa.BinOp:
+			if s := listed(t.X, d+1, seen); s != "" {
+				return s
+			}
+			return listed(t.Y, d+1, seen)
+		case *ssa.Convert:
+			return listed(t.X, d+1, seen)
+		case *ssa.Phi:
+			for _, e := range t.Edges {
+				if s := listed(e, d+1, seen); s != "" {
+					return s
+				}
+			}
+		case *ssa.Slice:
+			return listed(t.X, d+1, seen)
+		case *ssa.UnOp:
+			if t.Op == token.MUL {
+				// element of a slice built from listed names (varargs of Join)
+				if ia, ok := t.X.(*ssa.IndexAddr); ok {
+					return listed(ia.X, d+1, seen)
+				}
+				for _, o := range core.Origins(t) {
+					if o != ssa.Value(t) {
+						if s := listed(o, d+1, seen); s != "" {
+							return s
+						}
+					}
+				}
+			}
+		case *ssa.Alloc:
+			// varargs array: look at what is stored into it
+			for _, r := range *t.Referrers() {
+				if ia, ok := r.(*ssa.IndexAddr); ok {
+					for _, r2 := range *ia.Referrers() {
+						if st, ok := r2.(*ssa.Store); ok {
+							if s := listed(st.Val, d+1, seen); s != "" {
+								return s
+							}
+						}
+					}
+				}
+			}
+		case *ssa.Parameter:
+			// the path parameter of a Walk callback
+			fn := t.Parent()
+			if fn.Parent() != nil && len(fn.Params) >= 2 && t == fn.Params[0] && fn.Signature.Params().Len() == 3 {
+				if fn.Signature.Params().At(0).Type().String() == "string" && strings.HasSuffix(fn.Signature.Params().At(1).Type().String(), "FileInfo") {
+					return "the path handed to a filepath.Walk callback"
+				}
+			}
+		case *ssa.Extract:
+			return listed(t.Tuple, d+1, seen)
+		case *ssa.MakeInterface:
+			return listed(t.X, d+1, seen)
+		}
+		return ""
+	}
+	n := 0
+	var bad []string
+	for _, fn := range p.LibFuncs() {
+		for _, b := range fn.Blocks {
+			for _, in := range b.Instrs {
+				ci, ok := in.(ssa.CallInstruction)
+				if !ok {
+					continue
+				}
+				c := ci.Common()
+				if !(core.StaticCalleeIs(c, "os.Remove") || core.StaticCalleeIs(c, "os.RemoveAll")) || len(c.Args) == 0 {
+					continue
+				}
+				n++
+				if why := listed(c.Args[0], 0, map[ssa.Value]bool{}); why != "" {
+					bad = append(bad, fmt.Sprintf("%s removes a path built from %s at %s: files the engine does not own by id (the directory lock file) can be deleted", core.FuncKey(fn), why, p.InstrPos(in)))
+				}
+			}
+		}
+	}
+	if n < 3 {
+		rep.Unk("VAC", "RM1", "expected >= 3 removal calls in the library", "", fmt.Sprintf("found %d", n))
+		return
+	}
+	rep.Check(len(bad) == 0, "RM1", "removal-targets-constructed", fmt.Sprintf("none of the %d os.Remove / os.RemoveAll calls takes a listed name", n), "", strings.Join(sortedStr(bad), "; "), true)
+}
